@@ -884,6 +884,41 @@ func ruleSeparatorBetweenNonEmpty(c *eng.Ctx) {
 			})
 			c.Check(guarded, R, fmt.Sprintf("%s#separator%d", eng.FuncName(fn), n), ci.Pos(), "written only after earlier output", "the page separator can be written before anything else: a blank first page of the selection leaves a leading separator")
 		}
+		// the same accumulation written with string concatenation: acc += "\n\n" guarded by len(acc) > 0
+		if len(eng.CallsNamed(fn, false, "tabula.(*Extractor).resolvePages")) > 0 {
+			eng.Instrs(fn, false, func(in ssa.Instruction) {
+				b, ok := in.(*ssa.BinOp)
+				if !ok || b.Op != token.ADD || !eng.InLoop(b.Block()) {
+					return
+				}
+				if sep, ok := eng.ConstString(b.Y); !ok || sep != "\n\n" {
+					return
+				}
+				acc := b.X
+				n++
+				guarded := eng.GuardedBy(fn, b.Block(), func(f eng.Fact) bool {
+					op, x, y, ok := f.Cmp()
+					if !ok {
+						return false
+					}
+					for _, side := range [][2]ssa.Value{{x, y}, {y, x}} {
+						call, isCall := side[0].(*ssa.Call)
+						if !isCall {
+							continue
+						}
+						bi, isB := call.Call.Value.(*ssa.Builtin)
+						if !isB || bi.Name() != "len" || !(call.Call.Args[0] == acc || eng.SameValue(call.Call.Args[0], acc)) {
+							continue
+						}
+						if k, isC := eng.ConstInt(side[1]); isC && k == 0 && (op == token.GTR || op == token.NEQ || op == token.LSS) {
+							return true
+						}
+					}
+					return false
+				})
+				c.Check(guarded, R, fmt.Sprintf("%s#separator%d", eng.FuncName(fn), n), b.Pos(), "written only after earlier output", "the page separator can be written before anything else: a blank first page of the selection leaves a leading separator")
+			})
+		}
 	}
 }
 
